@@ -485,7 +485,7 @@ func TestVerifC12Dynamic(t *testing.T) {
 			Gen: c12GenDyn,
 			Run: func(cs c12DynCase) (verifkit.Outcome, error) { return c12RunDyn(c, cs) },
 			Floors: map[string]float64{"gc-must-act": 0.20, "current-not-last": 0.20, "setting-changed": 0.20,
-				"target-kept": 0.20, "string-setting": 0.15, "target-before-current": 0.05, "more-than-retain-before": 0.05},
+				"target-kept": 0.20, "string-setting": 0.15, "target-before-current": 0.05, "more-than-retain-before": 0.03},
 			NonTrivialFloor: 0.6,
 		})
 	})
